@@ -76,8 +76,8 @@ func c15Check(c *core.Ctx, s histScenario) {
 	cs := u.NewCachingScheduleTracker(len(h.Blocks))
 	created := map[int]int{}
 	deleted := map[int]int{}
-	overwrite := false  // some block's additions overwrote an empty root
-	sameBlock := false  // ... an empty root that the same block created
+	overwrite := false // some block's additions overwrote an empty root
+	sameBlock := false // ... an empty root that the same block created
 	for bi, b := range h.Blocks {
 		f := m.Forest()
 		var targets []uint64
